@@ -6,6 +6,7 @@ import (
 	"math"
 	"reflect"
 	"sort"
+	"strings"
 	"unsafe"
 
 	"verifharness/simrt"
@@ -122,6 +123,18 @@ func buildTyped(name string) interface{} {
 
 var typedDocNames = []string{"tdoc-ptr", "tdoc-val", "tslice", "tmap"}
 
+// typedFnExprs: every array-taking built-in on every typed (non-[]interface{}) field.
+func init() {
+	fields := []string{"nums", "strs", "objs", "pObjs", "grid", "any", "m.a", "@", "ptr.nums", "ptr.strs", "gen", "objs[*].t", "objs[0].t"}
+	fns := []string{"sort(%s)", "reverse(%s)", "sort_by(%s, &@)", "sort_by(%s, &k)", "max(%s)", "min(%s)", "sum(%s)", "avg(%s)", "join(',', %s)", "length(%s)", "to_array(%s)", "map(&@, %s)", "max_by(%s, &k)", "min_by(%s, &@)",
+		"contains(%s, `1`)", "not_null(%s)", "to_string(%s)", "type(%s)", "%s[]", "%s[::-1]", "%s[?@]", "%s[*]", "%s | sort(@)", "[%s, %s] | [0] | sort(@)", "%s[*] | sort(@)", "keys(%s)", "merge(%s)"}
+	for _, f := range fields {
+		for _, fn := range fns {
+			typedExprs = append(typedExprs, strings.Replace(fn, "%s", f, -1))
+		}
+	}
+}
+
 var typedExprs = []string{
 	"nums[0]", "nums[-1]", "nums[1:]", "nums[::-1]", "nums[]", "nums[*]", "strs[0]", "objs[*].k", "objs[*].s", "objs[?k > `1`].s", "objs[0].t", "objs[1:].s",
 	"pObjs[*].s", "pObjs[0].k", "p.s", "p.t[0]", "nilP.s", "nilP", "m.a", "sort_by(m.a, &@)", "m.b.c", "any[*].k", "sort_by(any, &k)", "sort_by(any, &k)[0]", "reverse(any)", "max_by(any, &k)",
@@ -172,7 +185,14 @@ func hashStr(s string) uint64 {
 //
 //go:norace
 //go:nocheckptr
-func hashDoc(v interface{}) uint64 {
+func hashDoc(v interface{}) uint64 { return hashDocD(v, 0) }
+
+//go:norace
+//go:nocheckptr
+func hashDocD(v interface{}, d int) uint64 {
+	if d > maxDepth {
+		return 0x99
+	}
 	switch x := v.(type) {
 	case nil:
 		return 0x11
@@ -191,7 +211,7 @@ func hashDoc(v interface{}) uint64 {
 		h = hmix(h, uint64(uintptr(unsafe.Pointer(unsafe.SliceData(x)))))
 		full := x[:cap(x)]
 		for i := 0; i < len(full); i++ {
-			h = hmix(h*31+uint64(i), hashDoc(full[i]))
+			h = hmix(h*31+uint64(i), hashDocD(full[i], d+1))
 		}
 		return h
 	case map[string]interface{}:
@@ -199,16 +219,16 @@ func hashDoc(v interface{}) uint64 {
 		h = hmix(h, uint64(uintptr(*(*unsafe.Pointer)(unsafe.Pointer(&x)))))
 		var sum uint64
 		for k, e := range x {
-			sum += hmix(hashStr(k), hashDoc(e))
+			sum += hmix(hashStr(k), hashDocD(e, d+1))
 		}
 		return hmix(h, sum)
 	}
-	return hashReflect(reflect.ValueOf(v), 0)
+	return hashReflect(reflect.ValueOf(v), d)
 }
 
 //go:norace
 func hashReflect(rv reflect.Value, depth int) uint64 {
-	if depth > 40 || !rv.IsValid() {
+	if depth > maxDepth || !rv.IsValid() {
 		return 0x88
 	}
 	switch rv.Kind() {
@@ -222,7 +242,7 @@ func hashReflect(rv reflect.Value, depth int) uint64 {
 			return 0x11
 		}
 		if rv.CanInterface() {
-			return hashDoc(rv.Interface())
+			return hashDocD(rv.Interface(), depth+1)
 		}
 		return hashReflect(rv.Elem(), depth+1)
 	case reflect.Struct:
@@ -280,7 +300,18 @@ func hashReflect(rv reflect.Value, depth int) uint64 {
 
 // deepCopy copies JSON-shaped data; other values (typed documents, expression
 // references) are returned as they are.
-func deepCopy(v interface{}) interface{} {
+func deepCopy(v interface{}) interface{} { return deepCopyD(v, 0) }
+
+// maxDepth bounds every recursive walk of the harness: a defective library can hand
+// back a self-referential value, and a stack overflow cannot be recovered in Go.
+const maxDepth = 120
+
+const depthSentinel = "\x00<value nested deeper than 120 levels or cyclic>"
+
+func deepCopyD(v interface{}, d int) interface{} {
+	if d > maxDepth {
+		return depthSentinel
+	}
 	switch x := v.(type) {
 	case []interface{}:
 		if x == nil {
@@ -288,7 +319,7 @@ func deepCopy(v interface{}) interface{} {
 		}
 		s := make([]interface{}, len(x))
 		for i, e := range x {
-			s[i] = deepCopy(e)
+			s[i] = deepCopyD(e, d+1)
 		}
 		return s
 	case map[string]interface{}:
@@ -297,7 +328,7 @@ func deepCopy(v interface{}) interface{} {
 		}
 		m := make(map[string]interface{}, len(x))
 		for k, e := range x {
-			m[k] = deepCopy(e)
+			m[k] = deepCopyD(e, d+1)
 		}
 		return m
 	}
@@ -308,7 +339,12 @@ func deepCopy(v interface{}) interface{} {
 // nil slices equal empty slices only if both are nil or both non-nil and empty —
 // JSON-visible differences only: a nil []interface{} serialises as null, an empty
 // one as [].
-func equalVal(a, b interface{}) bool {
+func equalVal(a, b interface{}) bool { return equalValD(a, b, 0) }
+
+func equalValD(a, b interface{}, d int) bool {
+	if d > maxDepth {
+		return false
+	}
 	switch x := a.(type) {
 	case nil:
 		return b == nil
@@ -333,7 +369,7 @@ func equalVal(a, b interface{}) bool {
 			return false
 		}
 		for i := range x {
-			if !equalVal(x[i], y[i]) {
+			if !equalValD(x[i], y[i], d+1) {
 				return false
 			}
 		}
@@ -345,7 +381,7 @@ func equalVal(a, b interface{}) bool {
 		}
 		for k, e := range x {
 			f, ok := y[k]
-			if !ok || !equalVal(e, f) {
+			if !ok || !equalValD(e, f, d+1) {
 				return false
 			}
 		}
@@ -363,6 +399,9 @@ func equalVal(a, b interface{}) bool {
 
 // firstDiff returns a path to the first difference between two JSON-shaped values.
 func firstDiff(a, b interface{}, path string) string {
+	if len(path) > 400 {
+		return path + "…"
+	}
 	switch x := a.(type) {
 	case []interface{}:
 		y, ok := b.([]interface{})
@@ -399,9 +438,10 @@ func firstDiff(a, b interface{}, path string) string {
 }
 
 func render(v interface{}) string {
-	b, err := json.Marshal(v)
+	// deepCopy first: it is depth limited, so a cyclic value cannot overflow the stack
+	b, err := json.Marshal(deepCopy(v))
 	if err != nil {
-		return fmt.Sprintf("%#v", v)
+		return fmt.Sprintf("<%T: %v>", v, err)
 	}
 	if len(b) > 300 {
 		return string(b[:300]) + "…"
